@@ -393,6 +393,24 @@ pub fn build(spec: &SynthSpec, dict: &[u8], rep_init: [u32; 3]) -> Built {
         f.extend_from_slice(&body);
     }
     let mut expect = expect0;
+    // Block_Maximum_Size = min(Window_Size, 128 KiB) limits every block's stored size and regenerated size; in a
+    // single-segment frame the window is the content size. Frames that break this are not conforming.
+    if let Ok(d) = &expect {
+        let win = if h.single_segment { h.fcs_value.unwrap_or(d.len() as u64) } else { window };
+        let bmax = win.min(crate::walker::BLOCK_MAX as u64) as usize;
+        for b in &spec.blocks {
+            let (ty, size, body) = block_body(b);
+            let stored = if ty == 1 { size as usize } else { body.len() };
+            let regen = match b {
+                SynthBlock::Raw { len, .. } | SynthBlock::Rle { len, .. } => *len as usize,
+                SynthBlock::Seq { .. } => seq_block_out_len(b),
+            };
+            if stored > bmax || regen > bmax {
+                expect = Err(ModelError::BlockTooBig);
+                break;
+            }
+        }
+    }
     // a single-segment frame's window is its content size: offsets were checked against u64::MAX above, which is right
     // because an offset can never exceed the data produced so far plus the dictionary.
     if h.checksum {
